@@ -242,7 +242,7 @@ def normalize_path(path):
     """Make a path absolute by resolving ``..`` elements."""
     progress = []
     for step in path:
-        if step == '..' and len(progress) > 0:
+        if step == '..' and len(progress) > 0 and progress[-1] != '..':
             progress = progress[:-1]
         else:
             progress.append(step)
